@@ -5,6 +5,7 @@ CONSTANTS
   MaxW = 8
   FreshOnly = TRUE
   Ops = {"bin", "un", "slice", "compose", "cond", "ext", "subst"}
+  AutoSimp = TRUE
   MapSpan = 6
   MapSrc = {}
   Rand = FALSE
